@@ -37,7 +37,8 @@ def run(ctx):
     ctx.rule(siftcore.rule_cleared_flag, 'C01.R2', gni)
     # additivity needs "the loop is left only for a licensed reason" for all three conditions, and "the loop is left" only
     # for the extraction flag (a continued loop after it would never end); that the cap stops the loop is C03's clause
-    ctx.rule(siftcore.rule_licensed_exits, 'C01.R3', sift, is_gni, must_leave=('flag',))
+    ctx.rule(siftcore.rule_licensed_exits, 'C01.R3', sift, is_gni, must_leave=('flag',),
+             reducers=('sum',))      # C01 names the absolute *sum* of the last component
     ctx.rule(siftcore.rule_none_chain, 'C01.R4', gni)
     ctx.rule(siftcore.rule_through_layer_loop, 'C01.R3', sift, ('emd.sift.get_next_imf',))
     # 'fewer than two interior maxima / minima' is about strict local extrema: the search that feeds the None-chain
